@@ -150,6 +150,7 @@ def add_attribute_nak(u):
         raise LostAnchor('attribute_nak: position closure')
     u.add(position_helper('attribute_nak_position', m.group(1)))
     TR = 'seq_tracker.spec_get(nak, current_time_ms)'
+    u.add(ATTR_LEMMA)
     u.add(u.fn(PH, 'attribute_nak', sub='events', ret='r', props=('C09',),
                pre_rewrite=[('connections.iter().position(|c| c.conn_id == conn_id)', 'attribute_nak_position(connections, conn_id)', 1)],
                requires=['distinct_conn_ids(old(connections)@)', 'links_wf(old(connections)@)'],
@@ -164,6 +165,7 @@ def add_attribute_nak(u):
                    C('C05.events.attribute_nak.remembered_carrier_is_the_only_chargeable_link', '''forall|p: int| 0 <= p < old(connections).len() && %s == Some((#[trigger] old(connections)[p]).conn_id) ==>
             (r == Some(p as usize) || r is None)
             && (forall|j: int| 0 <= j < old(connections).len() && j != p ==> link_unchanged(&old(connections)[j], &#[trigger] final(connections)[j]))''' % TR),
+                   C('C05.events.attribute_nak.contract_as_one_relation', 'attr_post(old(connections)@, final(connections)@, %s, nak as i32, r)' % TR),
                ],
                loops={0: dict(inv=[
                    'i_nx <= connections.len()', 'connections.len() == old(connections).len()', 'links_wf(connections@)',
@@ -171,6 +173,41 @@ def add_attribute_nak(u):
                    C('C05.events.attribute_nak.none_means_nobody_held_it_or_tracker_pointed_elsewhere', 'forall|j: int| 0 <= j < i_nx ==> !(#[trigger] old(connections)[j]).packet_log@.contains_key(nak as i32)'),
                    C('C05.events.attribute_nak.remembered_carrier_is_the_only_chargeable_link', 'forall|p: int| 0 <= p < connections.len() ==> %s != Some((#[trigger] old(connections)[p]).conn_id)' % TR),
                ], dec='connections.len() - i_nx')}))
+
+
+ATTR_LEMMA = r'''
+// ---------- C05 [L]: attribute_nak's contract as ONE relation, and what two calls in a row amount to ----------
+pub open spec fn attr_post(o: Seq<SrtlaConnection>, n: Seq<SrtlaConnection>, tr: Option<u64>, nak: i32, r: Option<usize>) -> bool {
+    &&& n.len() == o.len()
+    &&& (r is Some ==> r.unwrap() < o.len() && link_charged(&o[r.unwrap() as int], &n[r.unwrap() as int], nak)
+            && (forall|j: int| 0 <= j < o.len() && j != r.unwrap() ==> link_unchanged(&o[j], &#[trigger] n[j])))
+    &&& (r is None ==> forall|j: int| 0 <= j < o.len() ==> link_unchanged(&o[j], &#[trigger] n[j]))
+    &&& (forall|p: int| 0 <= p < o.len() && tr == Some((#[trigger] o[p]).conn_id) ==> (r == Some(p as usize) || r is None)
+            && (forall|j: int| 0 <= j < o.len() && j != p ==> link_unchanged(&o[j], &#[trigger] n[j])))
+}
+// "a repeated NAK changes nothing": while the sender still remembers the carrier (same tracker answer), the second NAK for a sequence
+// that was charged by the first one charges nobody and leaves every link as it was
+pub proof fn lemma_repeated_nak_is_the_identity(s0: Seq<SrtlaConnection>, s1: Seq<SrtlaConnection>, s2: Seq<SrtlaConnection>, tr: Option<u64>, nak: i32,
+                                                 r1: Option<usize>, r2: Option<usize>, p: int)
+    requires
+        attr_post(s0, s1, tr, nak, r1), attr_post(s1, s2, tr, nak, r2),
+        0 <= p < s0.len(), tr == Some(s0[p].conn_id), r1 is Some,
+    ensures
+        r1 == Some(p as usize),
+        r2 is None,  // @ob C05.events.lemma.a_repeated_nak_charges_nobody
+        forall|j: int| 0 <= j < s1.len() ==> link_unchanged(&s1[j], &#[trigger] s2[j]),  // @ob C05.events.lemma.a_repeated_nak_changes_nothing
+{
+    assert(r1 == Some(p as usize));
+    assert(link_charged(&s0[p], &s1[p], nak));
+    assert(!s1[p].packet_log@.contains_key(nak));
+    assert(s1[p].conn_id == s0[p].conn_id);
+    assert(tr == Some(s1[p].conn_id));
+    if r2 is Some {
+        assert(r2 == Some(p as usize));
+        assert(link_charged(&s1[p], &s2[p], nak));
+    }
+}
+'''
 
 
 # ------------------------------------------------------------------ process_connection_events (C02, C05, C06, C09, C10)
@@ -225,7 +262,20 @@ def add_events(u):
                                            'keys_subset(in0, connections@)',
                                            C('C02.events.cumulative_ack_reaches_every_link', 'forall|a: int| 0 <= a < ack_ix && incoming.ack_numbers[a] as i32 != i32::MIN ==> all_above(in0, #[trigger] incoming.ack_numbers[a] as i32)'),
                                            C('C02.events.cumulative_ack_reaches_every_link', '*ack as i32 != i32::MIN ==> forall|j: int, k: i32| 0 <= j < c_nx && (#[trigger] connections[j].packet_log@.contains_key(k)) ==> k > *ack as i32')],
-                           dec='connections.len() - c_nx'),
+                           dec='connections.len() - c_nx',
+                           # explicit step for the (untagged) key-subset clause: it was proved by luck before and flipped when an unrelated spec function was added
+                           end="""            proof {
+                assert(keys_subset(in0, c_all));
+                assert forall|j: int, k: i32| 0 <= j < connections.len() && (#[trigger] connections[j].packet_log@.contains_key(k)) implies in0[j].packet_log@.contains_key(k) by {
+                    if j == c_ix as int { assert(c_all[j].packet_log@.contains_key(k)); } else { assert(connections[j] == c_all[j]); }
+                }
+                if *ack as i32 != i32::MIN {
+                    assert(c_all[c_ix as int].above_hw());
+                    assert forall|j: int, k: i32| 0 <= j < c_nx && (#[trigger] connections[j].packet_log@.contains_key(k)) implies k > *ack as i32 by {
+                        if j != c_ix as int { assert(connections[j] == c_all[j]); }
+                    }
+                }
+            }"""),
                    2: dict(inv=_EV_BASE + ['srtla_ack_nx <= incoming.srtla_ack_numbers.len()', 'keys_subset(after_acks, connections@)'],
                            dec='incoming.srtla_ack_numbers.len() - srtla_ack_nx'),
                    3: dict(inv_eb=['retired is None',
